@@ -223,6 +223,11 @@ class MockNumba:
 
 class MockCuda:
 
+    class atomic:
+        @staticmethod
+        def add(array, idx, val):
+            array[idx] += val
+
     def __init__(self):
         self.x = 0
         self.y = 0
